@@ -140,6 +140,11 @@ func assignLeaves(shape string, kinds string) string {
 			sb.WriteString("b0")
 		case kind == 'r':
 			sb.WriteString("i0")
+		case kind == 'z' && sortc == 'I':
+			sb.WriteString("(z)")
+		case kind == 'z':
+			fmt.Fprintf(&sb, "b%d", nb)
+			nb++
 		case kind == 'k' && sortc == 'B':
 			fmt.Fprintf(&sb, "KB%d", kb)
 			kb++
@@ -205,6 +210,15 @@ func leafVariants(shape string, pol leafPolicy) []string {
 	b := []byte(all('v'))
 	b[0] = 'l'
 	add(string(b))
+	// a call of the operand-less custom operator z in the last integer position
+	for i := n - 1; i >= 0; i-- {
+		if slots[i] == 'I' {
+			bz := []byte(all('v'))
+			bz[i] = 'z'
+			add(string(bz))
+			break
+		}
+	}
 	if pol == leavesThorough {
 		add(all('r'))
 		for i := 1; i < n; i++ {
@@ -260,6 +274,14 @@ func stressShapes() []string {
 		"(and (and ?B (or ?B ?B)) (and ?B ?B))",
 		"(and ?B (and ?B (if ?B ?B ?B)))",
 		"(or (not ?B) (not (not ?B)) (and (not ?B) ?B))",
+		// guards in front of nested same-kind groups whose operands can fail (flattening must keep the order)
+		"(and ?B (and (p ?B) ?B))",
+		"(or ?B (or (p ?B) ?B))",
+		"(and (and ?B ?B) (and (p ?B) ?B))",
+		"(or (or ?B ?B) (or (> (/ ?I ?I) ?I) ?B))",
+		"(and (and (not (= ?I 0)) ?B) (and (> (/ 10 ?I) 1) ?B))",
+		"(and ?B (and ?B (and (> (q ?I) ?I) ?B)))",
+		"(or (and ?B ?B) (or ?B (or (p ?B) ?B)))",
 		// wider operators with nested operators in late positions
 		"(and ?B ?B (or ?B ?B ?B) ?B)",
 		"(or ?B ?B ?B (and ?B ?B ?B) ?B)",
@@ -303,18 +325,33 @@ func shapeFamily(maxM int, pol leafPolicy, stress bool, rootSorts string) []stri
 			out = append(out, s)
 		}
 	}
+	// the alias spellings of and/or go through the same control machinery (the compiler classifies
+	// nodes by name): the all-variable variant of every shape is also run with && / || and & / |
+	aliases := func(v string) {
+		if !strings.Contains(v, "(and ") && !strings.Contains(v, "(or ") {
+			return
+		}
+		add(strings.ReplaceAll(strings.ReplaceAll(v, "(and ", "(&& "), "(or ", "(|| "))
+		add(strings.ReplaceAll(strings.ReplaceAll(v, "(and ", "(& "), "(or ", "(| "))
+	}
 	for m := 1; m <= maxM; m++ {
 		if strings.Contains(rootSorts, "B") {
 			for _, sh := range ss.B(m) {
-				for _, v := range leafVariants(sh, pol) {
+				for i, v := range leafVariants(sh, pol) {
 					add(v)
+					if i == 0 {
+						aliases(v)
+					}
 				}
 			}
 		}
 		if strings.Contains(rootSorts, "I") {
 			for _, sh := range ss.I(m) {
-				for _, v := range leafVariants(sh, pol) {
+				for i, v := range leafVariants(sh, pol) {
 					add(v)
+					if i == 0 {
+						aliases(v)
+					}
 				}
 			}
 		}
